@@ -8,6 +8,7 @@ import (
 	"go/ast"
 	"go/parser"
 	"go/token"
+	"go/types"
 	"os"
 	"os/exec"
 	"path/filepath"
@@ -352,23 +353,62 @@ func solverName() string {
 // (io.EOF, bytes.ErrTooLarge, ...) the interpreted code compares against.
 var defaultInits = []string{"internal/oserror", "io", "bytes", "bufio", "encoding/binary", "io/fs", "github.com/cockroachdb/errors/oserror"}
 
-func initFuncs(prog *ssa.Program, list []string) ([]*ssa.Function, []string) {
+// initFuncs returns the package initialisers to interpret before a harness
+// runs: a few standard-library packages whose variables are compared against,
+// then every package of the module under test that the harness package
+// imports (transitively, dependencies first), then anything listed explicitly.
+// A global of a package that is not initialised reads as its zero value.
+func initFuncs(prog *ssa.Program, root *ssa.Package, list []string) ([]*ssa.Function, []string) {
 	var inits []*ssa.Function
 	var errs []string
-	for _, ip := range defaultInits {
-		if p := prog.ImportedPackage(ip); p != nil && !contains(list, ip) {
-			inits = append(inits, p.Func("init"))
+	seen := map[string]bool{}
+	add := func(ip string) {
+		if seen[ip] {
+			return
+		}
+		seen[ip] = true
+		if p := prog.ImportedPackage(ip); p != nil {
+			if f := p.Func("init"); f != nil {
+				inits = append(inits, f)
+			}
 		}
 	}
+	for _, ip := range defaultInits {
+		add(ip)
+	}
+	if root != nil {
+		const mod = "github.com/lni/dragonboat/v4"
+		var visit func(p *types.Package)
+		done := map[*types.Package]bool{}
+		visit = func(p *types.Package) {
+			if done[p] {
+				return
+			}
+			done[p] = true
+			for _, q := range p.Imports() {
+				visit(q)
+			}
+			path := p.Path()
+			if strings.HasPrefix(path, mod) && !noAutoInit[path] {
+				add(path)
+			}
+		}
+		visit(root.Pkg)
+	}
 	for _, ip := range list {
-		p := prog.ImportedPackage(ip)
-		if p == nil {
+		if prog.ImportedPackage(ip) == nil {
 			errs = append(errs, "init: no package "+ip)
 			continue
 		}
-		inits = append(inits, p.Func("init"))
+		add(ip)
 	}
 	return inits, errs
+}
+
+// packages of the module whose initialisers reach code the engine does not
+// model (none of the encoded paths reads their variables)
+var noAutoInit = map[string]bool{
+	"github.com/lni/dragonboat/v4/plugin/chan": true,
 }
 
 // ---------------------------------------------------------------------------
@@ -645,7 +685,7 @@ func cmdRun(args []string) int {
 			er.inc = append(er.inc, er.hs.Name+": function not found in package")
 			continue
 		}
-		inits, ierr := initFuncs(er.ld.prog, er.g.Inits)
+		inits, ierr := initFuncs(er.ld.prog, er.ld.pkg, er.g.Inits)
 		er.inc = append(er.inc, ierr...)
 		nw := er.hs.Workers
 		if nw > *jobs {
@@ -949,7 +989,7 @@ func cmdReplay(args []string) int {
 		fmt.Println("no such harness", rf.Harness)
 		return 2
 	}
-	inits, _ := initFuncs(ld.prog, g.Inits)
+	inits, _ := initFuncs(ld.prog, ld.pkg, g.Inits)
 	res := exploreHarness(ld.prog, ld.pkg.Func(rf.Harness), inits, RunOpts{Workers: 1, MaxSteps: hs.Steps, Tier: rf.Tier, SolverBin: solverCmd(60000), TimeoutMs: 60000, Pin: pin, MaxSwitch: hs.Switches, Verbose: true})
 	for _, v := range res.Viol {
 		fmt.Printf("events: %s\n", strings.Join(v.Events, " "))
